@@ -567,6 +567,9 @@ def norm_events(revs, ostep):
             n.update(step=step, handler=bool(e['handler']))
         elif k in ('XDeploy', 'XDeployFail', 'XDeployBegin', 'XConnClose'):
             n.update(conn=e['conn'], step=nz(step))
+            if k == 'XDeployBegin':
+                # the configuration the deployer was created with, as the deployer sees it (its free-form "tag" field)
+                n.update(data=[x for x in (e.get('data') or []) if x['v'] != 'null'], mode=nz(e.get('mode')))
         elif k == 'XExecStart':
             n.update(step=nz(step), id=e['id'], conn=e['conn'], concurrent=e['concurrent'],
                      input=[x for x in e['input'] if x['v'] != 'null'])
